@@ -91,3 +91,32 @@ Proof.
   apply (turn_passes_clockwise _ who a x s' HI HO Hs He).
 Qed.
 Print Assumptions C04_clockwise.
+
+(* who acts first: before the flop the seat to the left of the big blind (so, heads-up, the dealer, who
+   posts the small blind); on later streets the seat to the left of the dealer *)
+From PF Require Import ProofsFirst.
+Theorem C04_first_to_act :
+  forall g,
+    st_event (g_st g) = EvReadyRequested -> st_round (g_st g) <> RNone -> (2 <= nplayers g)%nat ->
+    let g' := fst (step g OReady) in
+    st_event (g_st g') = EvRoundStarted ->
+    match st_round (g_st g) with
+    | Preflop =>
+        (exists j, (j < nplayers g)%nat /\ p_bb (get_p g j) = true) ->
+        exists b, (b < nplayers g)%nat /\ p_bb (get_p g b) = true /\ st_cur (g_st g') = left_of (nplayers g) b
+    | _ => st_cur (g_st g') = left_of (nplayers g) (dealer_of g)
+    end.
+Proof. exact first_to_act. Qed.
+Print Assumptions C04_first_to_act.
+
+(* in every reachable state, every operation that is refused — whatever the reason — leaves the state
+   exactly as it was *)
+From PF Require Import ProofsPhase.
+Theorem C04_refused_operation_changes_nothing :
+  forall c deck g ops o,
+    cfg_ok c -> length deck = length (c_deck c) -> create c deck = (g, Ok) ->
+    snd (step (run g ops) o) <> Ok -> fst (step (run g ops) o) = run g ops.
+Proof.
+  intros c deck g ops o Hc Hl Hcr. apply refused_changes_nothing. apply (Good_reachable c deck g ops Hc Hl Hcr).
+Qed.
+Print Assumptions C04_refused_operation_changes_nothing.
